@@ -380,10 +380,11 @@ pub fn hostile_doc(rng: &mut Rng, env: &WorkerEnv) -> (String, Vec<u8>) {
         31 => {
             // an unresolvable reference at the bottom of n nested groups, one good sibling
             // per level: every level's work-list retries its failing child
-            let trailing = rng.below(4);
-            // the variant with a <var> after the failing child at every level is a known,
-            // unrepaired exponential case: the quick tier keeps it below the budget
-            let n = if trailing == 3 && env.tier == crate::core::Tier::Quick {
+            let trailing = rng.below(6);
+            // the variants with a <var>, <defaults> or <config> after the failing child at
+            // every level are a known, unrepaired exponential case (each counts as a change
+            // on every re-evaluation): the quick tier keeps them below the budget
+            let n = if trailing >= 3 && env.tier == crate::core::Tier::Quick {
                 *rng.pick(&[4usize, 8, 12])
             } else {
                 *rng.pick(&[6usize, 12, 18, 24, 40, 70])
@@ -405,11 +406,19 @@ pub fn hostile_doc(rng: &mut Rng, env: &WorkerEnv) -> (String, Vec<u8>) {
                     0 => {}
                     1 => s.push_str("<!-- c -->"),
                     2 => s.push_str(&format!("<rect id=\"x{i}\" wh=\"1\"/>")),
-                    _ => s.push_str(&format!("<var q{i}=\"{i}\"/><rect wh=\"1\"/>")),
+                    3 => s.push_str(&format!("<var q{i}=\"{i}\"/><rect wh=\"1\"/>")),
+                    4 => s.push_str(&format!("<defaults><circle r=\"{}\"/></defaults><rect wh=\"1\"/>", i + 1)),
+                    _ => s.push_str(&format!("<config border=\"{}\"/><rect wh=\"1\"/>", i % 7)),
                 }
             }
             s.push_str("</svg>");
-            (if trailing == 3 { "nested-unresolvable-var" } else { "nested-unresolvable" }.into(), s.into_bytes())
+            let name = match trailing {
+                3 => "nested-unresolvable-var",
+                4 => "nested-unresolvable-defaults",
+                5 => "nested-unresolvable-config",
+                _ => "nested-unresolvable",
+            };
+            (name.into(), s.into_bytes())
         }
         32 => {
             // degenerate connector geometry: coincident endpoints, touching or identical
